@@ -982,6 +982,11 @@ func (f *frame) call(in ssa.Instruction, c *ssa.CallCommon, rc Ref, typ types.Ty
 			return e
 		}
 	}
+	if (f.g.Unroll || f.g.ConstTables) && (name == "slices.Contains" || name == "slices.ContainsFunc") && len(args) == 2 {
+		if e := f.tableSearch(in, name, args, rc); e != nil {
+			return e
+		}
+	}
 	if f.g.Search && (name == "slices.Contains" || name == "slices.ContainsFunc" || name == "slices.DeleteFunc" || name == "slices.IndexFunc") && len(args) == 2 {
 		if e := f.searchCall(in, name, args, rc, typ); e != nil {
 			return e
@@ -2039,6 +2044,77 @@ func (f *frame) bindElem(test Ref, collE, idxE *E, d int, elemT types.Type) Ref 
 		t1 = u.SubstBool(t1, sub)
 	}
 	return t1
+}
+
+// tableSearch expands slices.Contains / slices.ContainsFunc over a table of
+// known small size (a whole array with at most 8 elements whose elements are
+// known: a constant package-level table or a local literal) into the
+// disjunction over its elements, the predicate evaluated per element.
+func (f *frame) tableSearch(in ssa.Instruction, name string, args []*E, rc Ref) *E {
+	u := f.g.U
+	coll := args[0]
+	if coll.Op != "slice" || coll.Args[1] != nil || coll.Args[2] != nil || coll.Args[3] != nil || coll.Args[0].Typ == nil {
+		return nil
+	}
+	pt, ok := coll.Args[0].Typ.Underlying().(*types.Pointer)
+	if !ok {
+		return nil
+	}
+	at, ok := pt.Elem().Underlying().(*types.Array)
+	if !ok || at.Len() < 1 || at.Len() > 8 {
+		return nil
+	}
+	var elems []*E
+	for i := int64(0); i < at.Len(); i++ {
+		ea := u.mk("iaddr", "", types.NewPointer(at.Elem()), coll.Args[0], u.Int(i))
+		ev := f.load(ea, at.Elem())
+		if ev == nil || ev.Op == "index" || ev.Op == "load" || ev.Op == "loopval" {
+			return nil // not a known element
+		}
+		elems = append(elems, ev)
+	}
+	var res Ref = False
+	if name == "slices.Contains" {
+		for _, ev := range elems {
+			res = u.bdd.Or(res, u.ToBool(u.Eq(ev, args[1])))
+		}
+		return u.Bool(res)
+	}
+	fv := args[1]
+	var callee *ssa.Function
+	var bindings []*E
+	switch fv.Op {
+	case "makeclosure":
+		callee = f.g.fnByName[fv.Aux]
+		bindings = fv.Args
+	case "func":
+		callee = f.g.fnByName[fv.Aux]
+	}
+	if callee == nil || callee.Blocks == nil {
+		return nil
+	}
+	for _, s := range f.g.stack {
+		if s == callee {
+			return nil
+		}
+	}
+	nEff, nSubs := len(f.sum.Effects), len(f.g.Subs)
+	for _, ev := range elems {
+		sub := f.g.eval(callee, []*E{ev}, bindings, f.mem, rc)
+		if sub == nil || len(sub.Rets) == 0 {
+			f.sum.Effects, f.g.Subs = f.sum.Effects[:nEff], f.g.Subs[:nSubs]
+			return nil
+		}
+		for _, ef := range sub.Effects {
+			if !(ef.Kind == "store" && ef.Local) {
+				f.sum.Effects, f.g.Subs = f.sum.Effects[:nEff], f.g.Subs[:nSubs]
+				return nil
+			}
+		}
+		f.g.Subs = append(f.g.Subs, sub)
+		res = u.bdd.Or(res, u.ToBool(f.retValue(sub, rc, types.Typ[types.Bool])))
+	}
+	return u.Bool(res)
 }
 
 // searchCall gives slices.Contains / slices.ContainsFunc the canonical form.
